@@ -81,10 +81,40 @@ type TupleV struct{ E []Value }
 type MapV struct{ Obj *Object } // Obj.Val is *MapState; nil Obj => nil map
 
 type Object struct {
-	ID   int
-	Typ  types.Type
-	Val  Value
-	Name string
+	ID    int
+	Typ   types.Type
+	Val   Value
+	Name  string
+	Birth *Term // guard under which the object was allocated (nil: always exists)
+}
+
+// relGuard strips the object's birth guard from a store guard: the object only exists on paths
+// where Birth holds, so ite(Birth ∧ c, v, old) may be written ite(c, v, old).
+func (x *Exec) relGuard(g *Term, o *Object) *Term {
+	if o.Birth == nil || o.Birth.IsTrue() {
+		return g
+	}
+	return x.stripConj(g, o.Birth, 0)
+}
+
+func (x *Exec) stripConj(g, b *Term, depth int) *Term {
+	if g == b {
+		return x.c.True
+	}
+	if b.Op == OAnd && depth < 40 {
+		// strip each conjunct of b
+		g = x.stripConj(g, b.A[0], depth+1)
+		g = x.stripConj(g, b.A[1], depth+1)
+		return g
+	}
+	if g.Op == OAnd && depth < 40 {
+		a0 := x.stripConj(g.A[0], b, depth+1)
+		a1 := x.stripConj(g.A[1], b, depth+1)
+		if a0 != g.A[0] || a1 != g.A[1] {
+			return x.c.And(a0, a1)
+		}
+	}
+	return g
 }
 
 var nilPtr = &PtrV{}
@@ -308,8 +338,10 @@ func (x *Exec) symArrStore(a *SymArrV, idx *Term, v Value, g *Term) *SymArrV {
 			if ls[k].Sort.K == SBool {
 				t = x.boolToBV(t)
 			}
-			st := x.c.Store(n.Leaves[k], idx, t)
-			n.Leaves[k] = x.c.Ite(g, st, n.Leaves[k])
+			if !g.IsTrue() {
+				t = x.c.Ite(g, t, x.c.Select(n.Leaves[k], idx))
+			}
+			n.Leaves[k] = x.c.Store(n.Leaves[k], idx, t)
 			k++
 		case *StructV:
 			for _, f := range u.F {
@@ -613,6 +645,9 @@ func (x *Exec) get(v Value, path []PathElem) Value {
 				continue
 			}
 			// symbolic index: mux over elements, then continue with the rest of the path on each element
+			if len(av.E) == 0 {
+				x.fail("get: symbolic index into empty array")
+			}
 			rest := path[i+1:]
 			var res Value
 			for j := len(av.E) - 1; j >= 0; j-- {
@@ -676,7 +711,7 @@ func (x *Exec) store(p Value, v Value, g *Term) {
 		if pv.Obj == nil {
 			x.fail("store through nil pointer")
 		}
-		pv.Obj.Val = x.set(pv.Obj.Val, pv.Path, v, g)
+		pv.Obj.Val = x.set(pv.Obj.Val, pv.Path, v, x.relGuard(g, pv.Obj))
 		return
 	case *PtrSetV:
 		for _, al := range pv.Alts {
@@ -687,7 +722,7 @@ func (x *Exec) store(p Value, v Value, g *Term) {
 			if gg.IsFalse() {
 				continue
 			}
-			al.P.Obj.Val = x.set(al.P.Obj.Val, al.P.Path, v, gg)
+			al.P.Obj.Val = x.set(al.P.Obj.Val, al.P.Path, v, x.relGuard(gg, al.P.Obj))
 		}
 		return
 	}
